@@ -60,6 +60,17 @@ func (Area) Gen(r *rand.Rand, tier string, emit func(string)) {
 	emit(fmt.Sprintf("dl httpreal silent %d", timeouts[r.Intn(len(timeouts))]))
 	emit(fmt.Sprintf("dl grpcwebopen nomsg %d", timeouts[r.Intn(len(timeouts))]))
 	emit(fmt.Sprintf("dl grpcwebopen midstream %d", timeouts[r.Intn(len(timeouts))]))
+	// how the timeout is CARRIED on the transcoded WebSocket entry: upgrade-request header only, header next to
+	// unrelated `_metadata[...]` query entries, query next to unrelated headers (added after seeded change C12-m5:
+	// headers used only as a fallback when the query carries no metadata)
+	for _, e := range []string{"ws-h", "ws-hq", "ws-qh"} {
+		emit(fmt.Sprintf("dl %s %s %d", e, shapes[1+r.Intn(2)], timeouts[r.Intn(len(timeouts))]))
+	}
+	// the real AdaptedClientConn in front of a REAL gRPC server whose connection takes a while to come up (lazy /
+	// idle / restarting target): the deadline the TARGET observes must still be the client's, not later by the
+	// connection wait (added after seeded change C12-m6: stream context rebuilt from a stale relative timeout)
+	emit(fmt.Sprintf("dl httpslow dial%d %d", 250+50*r.Intn(4), 800+100*r.Intn(3)))
+	emit(fmt.Sprintf("dl httpslow dial0 %d", 400+100*r.Intn(3)))
 	// a well-formed ZERO timeout is a deadline that has already passed, not "no timeout"
 	for _, e := range entries {
 		emit(fmt.Sprintf("dl %s %s 0", e, shapes[r.Intn(len(shapes))]))
@@ -67,6 +78,10 @@ func (Area) Gen(r *rand.Rand, tier string, emit func(string)) {
 	if tier == "thorough" {
 		for i := 0; i < 60; i++ {
 			emit(fmt.Sprintf("dl %s %s %d", entries[r.Intn(len(entries))], shapes[r.Intn(len(shapes))], 100+r.Intn(500)))
+		}
+		for i := 0; i < 12; i++ {
+			emit(fmt.Sprintf("dl %s %s %d", []string{"ws-h", "ws-hq", "ws-qh"}[r.Intn(3)], shapes[r.Intn(len(shapes))], 100+r.Intn(500)))
+			emit(fmt.Sprintf("dl httpslow dial%d %d", 50*r.Intn(8), 600+r.Intn(500)))
 		}
 	}
 }
@@ -182,8 +197,13 @@ func (Area) Exec(input string) string {
 	switch entry {
 	case "http":
 		o = runHTTP(rt, t, hdr, limit)
-	case "ws":
-		o = runWS(rt, t, hdr, limit)
+	case "ws", "ws-h", "ws-hq", "ws-qh":
+		o = runWS(rt, t, hdr, limit, strings.TrimPrefix(strings.TrimPrefix(entry, "ws"), "-"))
+	case "httpslow":
+		var delay int
+		fmt.Sscanf(shape, "dial%d", &delay)
+		t.shape = "idle"
+		o = runHTTPSlow(t, hdr, limit, time.Duration(delay)*time.Millisecond)
 	case "grpcweb":
 		o = runGRPCWeb(rt, t, hdr, limit)
 	case "grpcws":
@@ -277,6 +297,66 @@ func runHTTPReal(t *target, hdr string, limit time.Duration) obs {
 	return obs{el, fmt.Sprintf("http%d", resp.StatusCode)}
 }
 
+// runHTTPSlow: transcoded HTTP call through the real AdaptedClientConn to a REAL gRPC server (TCP) whose connection
+// only comes up after `delay` (the dialer sleeps): the call is idle at the target until the deadline ends it; the
+// target handler records the deadline IT observes (grpc-go derives it from the grpc-timeout the bridge's client sent).
+func runHTTPSlow(t *target, hdr string, limit time.Duration, delay time.Duration) obs {
+	ln, err := net.Listen("tcp", "127.0.0.1:0")
+	if err != nil {
+		return obs{0, "listenerr"}
+	}
+	gs := grpc.NewServer(grpc.UnknownServiceHandler(func(_ any, st grpc.ServerStream) error {
+		t.mu.Lock()
+		if dl, ok := st.Context().Deadline(); ok {
+			t.deadlineMs = dl.Sub(t.start).Milliseconds()
+		} else {
+			t.deadlineMs = -1
+		}
+		t.mu.Unlock()
+		<-st.Context().Done()
+		t.mu.Lock()
+		if t.closedMs < 0 {
+			t.closedMs = time.Since(t.start).Milliseconds()
+		}
+		t.mu.Unlock()
+		return status.FromContextError(st.Context().Err()).Err()
+	}))
+	go func() { _ = gs.Serve(ln) }()
+	defer gs.Stop()
+	cc, err := grpc.NewClient("passthrough:///"+ln.Addr().String(), grpc.WithTransportCredentials(insecure.NewCredentials()),
+		grpc.WithContextDialer(func(ctx context.Context, addr string) (net.Conn, error) {
+			select {
+			case <-time.After(delay):
+			case <-ctx.Done():
+				return nil, ctx.Err()
+			}
+			return (&net.Dialer{}).DialContext(ctx, "tcp", addr)
+		}))
+	if err != nil {
+		return obs{0, "dialerr"}
+	}
+	ac := grpcadapter.AdaptClient(cc)
+	defer ac.Close()
+	srv := httptest.NewServer(webbridge.NewTranscodedHTTPBridge(realRouter{ac, newDesc()}, webbridge.TranscodedHTTPBridgeOpts{}))
+	defer srv.Close()
+	req, _ := http.NewRequest("POST", srv.URL+"/ss", strings.NewReader("{}"))
+	req.Header.Set("Grpc-Timeout", hdr)
+	req.Header.Set("Content-Type", "application/json")
+	cl := &http.Client{Timeout: limit}
+	t.start = time.Now()
+	resp, err := cl.Do(req)
+	if err != nil {
+		return obs{time.Since(t.start).Milliseconds(), "clienterr"}
+	}
+	_, _ = io.ReadAll(resp.Body)
+	resp.Body.Close()
+	el := time.Since(t.start).Milliseconds()
+	if resp.StatusCode == 504 {
+		return obs{el, "deadline"}
+	}
+	return obs{el, fmt.Sprintf("http%d", resp.StatusCode)}
+}
+
 // lockedRecorder is a minimal concurrency-safe ResponseWriter.
 type lockedRecorder struct {
 	mu   sync.Mutex
@@ -341,13 +421,31 @@ func closeOutcome(err error) string {
 	return "wserr"
 }
 
-func runWS(rt router, t *target, hdr string, limit time.Duration) obs {
+// carry: "" = `_metadata[grpc-timeout]` query entry only; "h" = Grpc-Timeout header of the upgrade request only;
+// "hq" = header + an unrelated query metadata entry; "qh" = query entry + an unrelated header.
+func runWS(rt router, t *target, hdr string, limit time.Duration, carry string) obs {
 	srv := httptest.NewServer(webbridge.NewTranscodedWebSocketBridge(rt, webbridge.TranscodedWebSocketBridgeOpts{}))
 	defer srv.Close()
 	q := url.Values{}
-	q.Set("_metadata[grpc-timeout]", hdr)
+	h := http.Header{}
+	switch carry {
+	case "":
+		q.Set("_metadata[grpc-timeout]", hdr)
+	case "h":
+		h.Set("Grpc-Timeout", hdr)
+	case "hq":
+		h.Set("Grpc-Timeout", hdr)
+		q.Set("_metadata[x-other]", "1")
+	case "qh":
+		q.Set("_metadata[grpc-timeout]", hdr)
+		h.Set("X-Other", "1")
+	}
+	u := wsURL(srv.URL) + "/bidi"
+	if len(q) > 0 {
+		u += "?" + q.Encode()
+	}
 	t.start = time.Now()
-	c, _, err := websocket.DefaultDialer.Dial(wsURL(srv.URL)+"/bidi?"+q.Encode(), nil)
+	c, _, err := websocket.DefaultDialer.Dial(u, h)
 	if err != nil {
 		return obs{time.Since(t.start).Milliseconds(), "dialerr"}
 	}
